@@ -101,7 +101,12 @@ class C11(XsProp):
                  ('#( 2 const TWO #) : gg local a local TWO #( TWO TWO * #) a TWO ; 8 9 gg', '#( 2 const TWO #) : gg local a local TWO 4 a TWO ; 8 9 gg'),
                  ('#( 6 const SIX #) : hh local SIX 3 0 do #( SIX #) drop loop SIX ; 1 hh', '#( 6 const SIX #) : hh local SIX 3 0 do 6 drop loop SIX ; 1 hh'),
                  ('#( 6 const SIX #) : kk local q #( SIX #) q ; 1 kk', '#( 6 const SIX #) : kk local q 6 q ; 1 kk'),
-                 (': mm local zz #( 1 2 + #) zz ; 5 mm', ': mm local zz 3 zz ; 5 mm')]
+                 (': mm local zz #( 1 2 + #) zz ; 5 mm', ': mm local zz 3 zz ; 5 mm'),
+                 # a constant defined twice inside one block that also defines a word: the newest definition is the one that remains
+                 ('#( : twice dup + ; 1 twice const SIX SIX twice const SIX #) SIX', '#( 4 const SIX #) SIX'),
+                 ('#( : k 10 ; k const TWO #( TWO 1 + const TWO #) #) TWO', '#( 11 const TWO #) TWO'),
+                 ('#( 1 const SIX : w SIX ; 2 const SIX : v 7 ; 3 const SIX #) SIX SIX +', '#( 3 const SIX #) SIX SIX +'),
+                 ('#( : a 1 ; : b 2 ; 5 const SIX 6 const TWO 7 const SIX #) SIX TWO', '#( 7 const SIX 6 const TWO #) SIX TWO')]
         for a, b in pairs:
             for pre in ('', '100 200'):
                 cs.append('xs limits 6000 - - | clone | eval %s | stack | out | code 0 | dict 239 | use 1 | eval %s | stack | out | code 0 | dict 239'
